@@ -167,7 +167,7 @@ def domain_values(rnd, op, bl, ka, kb):
     if op in ("mul",):
         return rnd.randrange(-q, q + 1), rnd.randrange(-q, q + 1)
     if op == "truediv":
-        b = rnd.choice([v for v in range(-q, q + 1) if v != 0])
+        b = rnd.choice([1, -1]) * rnd.randrange(1, q + 1)
         return b * rnd.randrange(-q, q + 1), b
     if op in ("floordiv", "mod", "divmod"):
         b = rnd.randrange(1, max(2, min(half, 1 << 12)))
@@ -195,7 +195,11 @@ def op_case(rnd, cid, profile="mixed", ops=None, kinds=None, p=BN128):
         ra = b.operand(ka, value=va); rb = b.operand(kb, value=vb)
     else:
         ra = b.operand(ka, malformed and rnd.random() < 0.7)
-        rb = ra if (rnd.random() < 0.05 and ka == kb) else b.operand(kb, malformed and rnd.random() < 0.7)
+        if op in ("lshift", "rshift", "pow") and kb == "I":
+            # plain shift counts / exponents stay small: `1 << 2**40` would exhaust memory, not test anything
+            rb = b.operand("I", value=rnd.choice([0, 1, 2, 3, cfg["bl"] - 1, cfg["bl"], cfg["bl"] + 1, -1, -2, 40, 300]))
+        else:
+            rb = ra if (rnd.random() < 0.05 and ka == kb) else b.operand(kb, malformed and rnd.random() < 0.7)
     rr = b.emit(f"bin {op} r{ra} r{rb}", result_kind(op, ka, kb))
     follow_ups(rnd, b, rr)
     return Case(cid, cfg, b.ins, {"shape": "op", "op": op, "kinds": ka + kb, "malformed": malformed})
